@@ -637,6 +637,16 @@ type HEIFOpts struct {
 	// IrefBad (with Iref): the iref box declares more than meta has left and its first child more
 	// than iref declares - a malformed variant in which error handling decides what is read next
 	IrefBad bool
+	// BaseOffset: the iloc entries carry a 4-byte base offset and the extent offsets count from it
+	// (ISO/IEC 14496-12 8.11.3: an extent lies at base_offset + extent_offset)
+	BaseOffset bool
+	// SecondMdat: the two items lie in an mdat box each (the second item in the second box)
+	SecondMdat bool
+	// ManyItems: that many further coded-image items are listed in iinf and iloc between the first
+	// item and the Exif item (tiles of a grid image); from about 190 the boxes exceed 4 KiB
+	ManyItems int
+	// MultiExtent: the coded image item is stored as two extents
+	MultiExtent bool
 	// IlocLastCut > 0: the item-location box is the last child of meta and its last bytes are
 	// missing (the box, and meta with it, ends that many bytes early - inside its last entry)
 	IlocLastCut int
@@ -670,7 +680,11 @@ func DrawHEIFOpts(l *core.Lane, tiff []byte, surround bool, ho HEIFOpts) *HEIF {
 	}
 	hdlr := fullBox("hdlr", 0, 0, be32(0), []byte("pict"), make([]byte, 12), []byte{0})
 	pitm := fullBox("pitm", 0, 0, be16(1))
-	infes := [][]byte{infe(1, "hvc1", nil), infe(2, "Exif", nil)}
+	infes := [][]byte{infe(1, "hvc1", nil)}
+	for i := 0; i < ho.ManyItems; i++ {
+		infes = append(infes, infe(uint16(100+i), "hvc1", nil))
+	}
+	infes = append(infes, infe(2, "Exif", nil))
 	for i := 0; i < ho.InfeVariants; i++ {
 		typ := []string{"mime", "uri ", "mime"}[i%3]
 		var extra []byte // content_type / uri string, possibly absent, possibly unterminated
@@ -707,17 +721,39 @@ func DrawHEIFOpts(l *core.Lane, tiff []byte, surround bool, ho HEIFOpts) *HEIF {
 	// iloc v0: offset_size 4, length_size 4, base_offset_size 0; two items with one extent each
 	mkIloc := func(off1, len1, off2, len2 uint32) []byte {
 		p := []byte{0x44, 0x00}
-		p = append(p, be16(2)...)
-		p = append(p, be16(1)...)
-		p = append(p, be16(0)...)
-		p = append(p, be16(1)...)
-		p = append(p, be32(off1)...)
-		p = append(p, be32(len1)...)
-		p = append(p, be16(2)...)
-		p = append(p, be16(0)...)
-		p = append(p, be16(1)...)
-		p = append(p, be32(off2)...)
-		p = append(p, be32(len2)...)
+		if ho.BaseOffset {
+			p[1] = 0x40
+		}
+		p = append(p, be16(uint16(2+ho.ManyItems))...)
+		entry := func(id uint16, off uint32, lens ...uint32) {
+			p = append(p, be16(id)...)
+			p = append(p, be16(0)...)
+			if ho.BaseOffset {
+				d := uint32(5)
+				if off < d {
+					d = off
+				}
+				p = append(p, be32(off-d)...)
+				off = d
+			}
+			p = append(p, be16(uint16(len(lens)))...)
+			for _, n := range lens {
+				p = append(p, be32(off)...)
+				p = append(p, be32(n)...)
+				off += n
+			}
+		}
+		if ho.MultiExtent && len1 >= 2 {
+			entry(1, off1, len1/2, len1-len1/2)
+		} else if ho.MultiExtent {
+			entry(1, off1, len1, 0)
+		} else {
+			entry(1, off1, len1)
+		}
+		for i := 0; i < ho.ManyItems; i++ {
+			entry(uint16(100+i), off1, 1)
+		}
+		entry(2, off2, len2)
 		return fullBox("iloc", 0, 0, p)
 	}
 	var extra []byte
@@ -762,9 +798,15 @@ func DrawHEIFOpts(l *core.Lane, tiff []byte, surround bool, ho HEIFOpts) *HEIF {
 	}
 	imgOff := mdatStart + mdatHdr
 	exifOff := imgOff + len(imgData)
+	if ho.SecondMdat {
+		exifOff += 8
+	}
 	if ho.ItemFirst {
 		exifOff = mdatStart + mdatHdr
 		imgOff = exifOff + len(item)
+		if ho.SecondMdat {
+			imgOff += 8
+		}
 	}
 	meta := mkMeta(mkIloc(uint32(imgOff), uint32(len(imgData)), uint32(exifOff), uint32(len(item))))
 	out := append([]byte(nil), ftyp...)
@@ -785,12 +827,25 @@ func DrawHEIFOpts(l *core.Lane, tiff []byte, surround bool, ho HEIFOpts) *HEIF {
 	if ho.ItemFirst {
 		first, second = item, imgData
 	}
+	var none []byte
+	if ho.SecondMdat {
+		second, none = none, second
+	}
+	trail1 := trail
+	if ho.SecondMdat {
+		trail1 = nil
+	}
 	if ho.Mdat64 {
-		out = append(out, Box64("mdat", first, second, trail)...)
+		out = append(out, Box64("mdat", first, second, trail1)...)
 	} else {
-		out = append(out, Box("mdat", first, second, trail)...)
+		out = append(out, Box("mdat", first, second, trail1)...)
 	}
 	h.Top = append(h.Top, Span{"mdat", s, len(out)})
+	if ho.SecondMdat {
+		s = len(out)
+		out = append(out, Box("mdat", none, trail)...)
+		h.Top = append(h.Top, Span{"mdat", s, len(out)})
+	}
 	h.TIFFOff = exifOff + 10
 	if surround && l.Bool() {
 		out = append(out, ScreenTIFF(l.Sub().Bytes(l.Intn(300)))...)
